@@ -1033,3 +1033,20 @@ def op_c13_threads(case):
         got = list(ex.map(lambda c: _call_outcome(pool[c - 1]), order))
     sys.setswitchinterval(0.005)
     return {"got": got}
+
+
+def op_c15(case):
+    """one program under a list of option points; returns an outcome digest + gate info per point"""
+    src, mode = case["src"], case["mode"]
+    out = []
+    for pt in case["points"]:
+        o = obs_parse(src, mode, py_version=(3, pt["v"]) if pt["v"] else None, verbose=pt["verbose"], want=("dump",))
+        if o.get("hang"):
+            out.append({"d": -1, "kind": "hang"})
+        elif o.get("ok"):
+            out.append({"d": _h(("tree", o.get("dump"))), "kind": "tree"})
+        else:
+            e = o["exc"]
+            out.append({"d": _h(("exc", e["cls"], e["msg"], e.get("lineno"), e.get("offset"), e.get("end_lineno"), e.get("end_offset"), e.get("text"))),
+                        "kind": "exc", "cls": e["cls"], "msg": e["msg"], "syntaxerror": "SyntaxError" in e["mro"]})
+    return {"points": out}
